@@ -109,17 +109,28 @@ def parse_paths(records: list[tuple[int, str, str]]) -> list[tuple[int, list[int
 
 
 def run_case(item: tuple[Any, ...]) -> tuple[dict[str, Any], SessionModel]:
-    nodes, edges, flavour, depth, skip, thorough, reset = item
+    nodes, edges, flavour, depth, skip, thorough, reset = item[:7]
     model = SessionModel(tuple(nodes), frozenset(tuple(e) for e in edges), flavour)
     kw: dict[str, Any] = {"depth": depth, "skip": list(skip), "thorough": thorough}
     if reset:
         kw["reset"] = 1
-    box = scan_common.run_scanner("SessionsScanner", "SessionsScannerConfig", kw, model)
+    with_db = len(item) > 7 and bool(item[7])
+    box = scan_common.run_scanner("SessionsScanner", "SessionsScannerConfig", kw, model, db=with_db)
+    if with_db:
+        import sqlite3
+
+        con = sqlite3.connect(box["db_path"])
+        try:
+            box["transitions"] = con.execute("select destination, steps from session_transition order by rowid").fetchall()
+            box["run_meta"] = con.execute("select end_time, exit_code from run_meta").fetchall()
+            box["n_scan_result"] = con.execute("select count(*) from scan_result").fetchone()[0]
+        finally:
+            con.close()
     return box, model
 
 
 def judge(item: tuple[Any, ...], box: dict[str, Any], model: SessionModel, res: Result) -> None:
-    nodes, edges, flavour, depth, skip, thorough, reset = item
+    nodes, edges, flavour, depth, skip, thorough, reset = item[:7]
     edges = frozenset(tuple(e) for e in edges)
     rp = {"item": item}
     where = f"[nodes={[hex(n) for n in nodes]} edges={sorted(edges)} flavour={flavour:#x} depth={depth} skip={list(skip)} thorough={thorough} reset={reset}]"
@@ -172,6 +183,27 @@ def judge(item: tuple[Any, ...], box: dict[str, Any], model: SessionModel, res: 
             if len(stack) > depth:
                 v("paths|longer-than-depth", f"reported stack {stack} -> {sess:#x} uses more than depth={depth} session changes")
                 return
+    if "transitions" in box:
+        # session_transition rows: one per reported session, each a real path from the default session
+        import json as _json
+
+        res.count("db_runs")
+        rows = [(d, _json.loads(st)) for d, st in box["transitions"]]
+        dests = [d for d, _ in rows]
+        if sorted(set(dests)) != sorted(set(got)) and not any(n == "RESULT" and "could not be activated" in m for _l, n, m in box["records"]):
+            v("db|session_transition-destinations", f"session_transition destinations {sorted(set(dests))} != result {sorted(got)}")
+            return
+        for dest, steps in rows:
+            if dest in got:
+                ok = bool(steps) and steps[0] == 1 and all((a, b) in edges for a, b in zip(steps, steps[1:], strict=False)) and (steps[-1], dest) in edges
+                if not ok:
+                    v("db|session_transition-not-a-path", f"session_transition row {steps} -> {dest:#x} is not a path in the ECU's graph")
+                    return
+        rm = box.get("run_meta")
+        if not rm or rm[0][0] is None or rm[0][1] != 0:
+            v("db|run-meta", f"run_meta row {rm} after a scan that returned exit code 0")
+            return
+        res.count("db_rows_checked", len(rows))
     if box["loop_exc"]:
         v("loop-exception-handler", f"{box['loop_exc'][:2]}")
 
@@ -181,7 +213,7 @@ def run_item(item: tuple[Any, ...]) -> Result:
     box, model = run_case(item)
     res.count("executions")
     res.count("transitions", len(box["log"]))
-    nodes, edges, flavour, depth, skip, thorough, reset = item
+    nodes, edges, flavour, depth, skip, thorough, reset = item[:7]
     res.seen("states", (nodes, tuple(sorted(edges)), flavour, depth, tuple(skip), thorough, reset, tuple(box["scanner"].result), box.get("exit")))
     res.seen("results", (nodes, tuple(box["scanner"].result)))
     if box.get("exit") == 0 and len(box["scanner"].result) > 1:
@@ -212,6 +244,7 @@ def items(tier: str, seed: int) -> list[Any]:
                 for depth in (1, 2, 3) if nodes == (1, 2, 3) else (2,):
                     out.append((nodes, e, 0x12, depth, (), False, False))
                 if nodes == (1, 2, 3):
+                    out.append((nodes, e, 0x12, 3, (), False, True, True))  # with a scan database
                     out.append((nodes, e, 0x7E, 2, (), False, True))
                     out.append((nodes, e, 0x22, 3, (), True, False))
                     out.append((nodes, e, 0x12, 3, (2,), False, False))
@@ -227,13 +260,15 @@ def items(tier: str, seed: int) -> list[Any]:
             e = tuple(sorted(g))
             for depth in (1, 2, 3, 4):
                 out.append((nodes4, e, 0x12, depth, (), False, False))
+            if len(e) % 7 == 0:
+                out.append((nodes4, e, 0x12, 4, (), False, True, True))
             out.append((nodes4, e, 0x7E, 3, (3,), False, True))
     return out
 
 
 def replay(doc: dict[str, Any]) -> Result:
     it = doc["item"]
-    item = (tuple(it[0]), tuple(tuple(e) for e in it[1]), it[2], it[3], tuple(it[4]), it[5], it[6])
+    item = (tuple(it[0]), tuple(tuple(e) for e in it[1]), it[2], it[3], tuple(it[4]), it[5], it[6], *it[7:])
     res = Result()
     box, model = run_case(item)
     print("    exit:", box.get("exit"), "result:", [hex(x) for x in box["scanner"].result], "status:", box["status"])
@@ -249,7 +284,10 @@ def replay(doc: dict[str, Any]) -> Result:
 
 def finish(merged: Result, tier: str) -> dict[str, Any]:
     c = merged.counters
-    for k in ("scans_finding_nondefault_sessions", "cases_where_depth_limit_cuts", "documented_aborts"):
+    import shutil
+
+    shutil.rmtree(f"/dev/shm/vf-scan-{__import__('os').getpid()}", ignore_errors=True)
+    for k in ("scans_finding_nondefault_sessions", "cases_where_depth_limit_cuts", "documented_aborts", "db_rows_checked"):
         if not c.get(k):
             raise Broken(f"vacuous: {k} == 0")
     return {"exhaustive": True}
